@@ -478,6 +478,18 @@ func checkReuse(c reuseCase) evid.Outcome {
 	if a, b := observe(used), observe(fresh); a != b {
 		return evid.Fail("%s: decoding %x into a value that decoded %x before differs from decoding it into a fresh value:\n reused: %s\n fresh:  %s", c.Decoder, []byte(c.B2), []byte(c.B1), a, b)
 	}
+	// a value the caller has worked with in between (every exported field reachable from it changed: the full 32-bit
+	// frame counter stored back, flags toggled, bytes overwritten) decodes like a fresh one, too
+	worked := d.New()
+	if err := d.Decode(worked, c.Uplink1, append([]byte{}, c.B1...)); err == nil {
+		scribble(reflect.ValueOf(worked), 0)
+		if err := d.Decode(worked, c.Uplink2, append([]byte{}, c.B2...)); err != nil {
+			return evid.Fail("%s: decoding %x into a value that decoded %x before and whose fields the caller changed since: %v; a fresh value accepts it", c.Decoder, []byte(c.B2), []byte(c.B1), err)
+		}
+		if a, b := observe(worked), observe(fresh); a != b {
+			return evid.Fail("%s: decoding %x into a value that decoded %x before and whose fields the caller changed since differs from decoding it into a fresh value:\n reused: %s\n fresh:  %s", c.Decoder, []byte(c.B2), []byte(c.B1), a, b)
+		}
+	}
 	nt := false
 	for i := range c.B1 {
 		if i < len(c.B2) && c.B1[i]&^c.B2[i] != 0 {
